@@ -28,7 +28,7 @@ func b01(b bool) string { return common.B(b) }
 func sitOf(c *Case, k int) (sit, form, pk string) {
 	pt, v := paramTypeOf(c, k), c.Args[k]
 	form = "other"
-	if c.Forms[k] == "const" || c.Forms[k] == "lit" && pt.Kind == KBasic {
+	if c.Forms[k] == "const" || c.Forms[k] == "lit" && (pt.Kind == KBasic || pt.Kind == KIface && v.Nil) {
 		form = "const" // an untyped constant or a constant conversion: converted to the type callBin picks
 	}
 	pk = "concrete"
